@@ -77,16 +77,18 @@ func (c *TableMetaCache) GetTableMeta(ctx context.Context, dbName, tableName str
 		return nil, fmt.Errorf("table name is empty")
 	}
 
-	// the statement may give the table an alias: t AS a, t a. Anything more than that is a reference to several
-	// tables (t1 JOIN t2 ON ..., t1, t2): the images, lock keys and undo log of the executors follow ONE table
-	switch fields := strings.Fields(tableName); {
-	case len(fields) == 1, len(fields) == 2, len(fields) == 3 && strings.EqualFold(fields[1], "AS"):
-		if strings.ContainsAny(tableName, ",") || strings.EqualFold(fields[len(fields)-1], "JOIN") {
+	// the statement may give the table an alias, index hints, a partition list: t AS a, t a, t FORCE INDEX (i),
+	// t PARTITION (p0). A reference to several tables (t1 JOIN t2 ON ..., t1, t2) is something else: the images,
+	// lock keys and undo log of the executors follow ONE table
+	if strings.ContainsAny(strings.TrimSpace(tableName), " ,") {
+		schema, name, single := types.SingleTableOfReference(tableName)
+		if !single {
 			return nil, fmt.Errorf("a statement over several tables (%s) is not supported in a global transaction", tableName)
 		}
-		tableName = fields[0]
-	default:
-		return nil, fmt.Errorf("a statement over several tables (%s) is not supported in a global transaction", tableName)
+		tableName = name
+		if schema != "" {
+			tableName = schema + "." + name
+		}
 	}
 	// the statement may name the table together with its database: db.table, `db`.`table` - the database of the
 	// connection, that is: images, lock keys and undo log know a table by its name alone, and the undo of a table
